@@ -391,12 +391,15 @@ def sym_svd(M, full_matrices=True, compute_uv=True, hermitian=False):
     """stub for the SVD of a symmetric PSD matrix: M = U diag(w) U^T, w = sigma^2 >= 0."""
     M = obj(M)
     n = M.shape[0]
-    k = len(SVD_LOG)
+    # content-named: the decomposition is a function of the matrix (same matrix -> same factors, whatever the history)
+    import hashlib
+    k = hashlib.md5("|".join(z(Sym.lift(e).re).sexpr() + "," + z(Sym.lift(e).im).sexpr() for e in M.flat).encode()).hexdigest()[:10]
+    k = "%d_%s" % (n, k)
     U = numpy.empty((n, n), dtype=object)
     for i in range(n):
         for j in range(n):
-            U[i, j] = Sym(z3.Real("svdU!%d[%d,%d]" % (k, i, j)))
-    sig = [z3.Real("svds!%d[%d]" % (k, i)) for i in range(n)]
+            U[i, j] = Sym(z3.Real("svdU!%s[%d,%d]" % (k, i, j)))
+    sig = [z3.Real("svds!%s[%d]" % (k, i)) for i in range(n)]
     W = numpy.empty(n, dtype=object)
     for i in range(n):
         w = Sym(sig[i] * sig[i])
@@ -804,7 +807,28 @@ class MathProxy:
         return wrapped
 
 
-def sym_float(x=0.0):
+class _BuiltinMeta(type):
+    """the rebound float / int stay usable in isinstance() and issubclass() and as conversion calls"""
+
+    def __call__(cls, *a, **k):
+        return cls._convert(*a, **k)
+
+    def __instancecheck__(cls, inst):
+        if isinstance(inst, Sym):
+            return cls._real is _real_float and inst.isreal()
+        return isinstance(inst, cls._real)
+
+    def __subclasscheck__(cls, sub):
+        return issubclass(sub, cls._real)
+
+    def __getattr__(cls, k):
+        return getattr(cls._real, k)
+
+    def __repr__(cls):
+        return repr(cls._real)
+
+
+def _sym_float(x=0.0):
     if isinstance(x, Sym):
         if not x.isreal():
             raise TypeError("float() argument must be real")
@@ -816,7 +840,7 @@ def sym_float(x=0.0):
     return _real_float(x)
 
 
-def sym_int_builtin(x=0, *a):
+def _sym_int_builtin(x=0, *a):
     if isinstance(x, Sym):
         return core.sym_int(x)
     if isinstance(x, numpy.ndarray) and x.dtype == object and x.size == 1:
@@ -824,8 +848,16 @@ def sym_int_builtin(x=0, *a):
     return _real_int(x, *a)
 
 
-sym_float._np_dtype = "float64"
-sym_int_builtin._np_dtype = "int64"
+class sym_float(metaclass=_BuiltinMeta):
+    _real = _real_float
+    _convert = staticmethod(_sym_float)
+    _np_dtype = "float64"
+
+
+class sym_int_builtin(metaclass=_BuiltinMeta):
+    _real = _real_int
+    _convert = staticmethod(_sym_int_builtin)
+    _np_dtype = "int64"
 
 
 def sym_round(x, nd=None):
@@ -1145,6 +1177,38 @@ class NP:
 
     def isfinite(self, x):
         return numpy.ones(numpy.shape(x), dtype=bool) if numpy.shape(x) else True
+
+    def array_equal(self, a1, a2, equal_nan=False):
+        """one decision for the whole comparison (not one fork per element)"""
+        try:
+            x, y = numpy.asarray(a1), numpy.asarray(a2)
+        except Exception:
+            return False
+        if x.shape != y.shape:
+            return False
+        if x.dtype != object and y.dtype != object:
+            return bool(numpy.array_equal(x, y, equal_nan=equal_nan))
+        lits = []
+        for i in numpy.ndindex(*x.shape):
+            u, v = Sym.lift(x[i]), Sym.lift(y[i])
+            for p, q in ((u.re, v.re), (u.im, v.im)):
+                if conc(p) and conc(q):
+                    if p != q:
+                        return False
+                    continue
+                zp, zq = z(p), z(q)
+                if zp.get_id() != zq.get_id():
+                    lits.append(zp == zq)
+        if not lits:
+            return True
+        return bool(SymBool(z3.And(*lits) if len(lits) > 1 else lits[0]))
+
+    def array_equiv(self, a1, a2):
+        try:
+            x, y = numpy.broadcast_arrays(numpy.asarray(a1), numpy.asarray(a2))
+        except Exception:
+            return False
+        return self.array_equal(x, y)
 
     def less_equal(self, a, b):
         return numpy.less_equal(a, b)
